@@ -111,6 +111,7 @@ type Interp struct {
 	setupCells           map[*Cell]bool
 	setupMaps            map[*Map]bool
 	self                 *selfState // translator validation (selftest.go)
+	unwinding            bool       // a fatalStack panic is in flight
 	castRaised, castSeen int        // mis-typed variant accesses raised / reported to the harness by sv.Outcome
 }
 
@@ -360,7 +361,7 @@ func (in *Interp) callValue(caller *Frame, fnv Value, args []Value) Value {
 	panic(fmt.Sprintf("engine: call of %T", fnv))
 }
 
-const maxDepth = 60000
+var maxDepth = 20000
 
 type fatalStack struct{}
 
@@ -392,6 +393,7 @@ func (in *Interp) callFn(caller *Frame, fn *ssa.Function, args []Value, env []Va
 		// violation. Whether the native stack really overflows at the depth
 		// the engine stops at is settled by the native replay.
 		in.events = append(in.events, "fatal: call depth > "+fmt.Sprint(maxDepth)+" (stack overflow) at "+in.where())
+		in.unwinding = true
 		panic(fatalStack{})
 	}
 	fr := &Frame{fn: fn, info: fi, regs: make([]Value, fi.n), caller: caller}
@@ -406,6 +408,12 @@ func (in *Interp) callFn(caller *Frame, fn *ssa.Function, args []Value, env []Va
 		in.depth--
 		in.curFrame = saved
 		if fr.done {
+			return
+		}
+		if in.unwinding {
+			// fatal unwinding: no deferred call of the code under test runs and
+			// the Go panic is left in flight (re-panicking in every frame is
+			// quadratic in the depth)
 			return
 		}
 		r := recover()
